@@ -359,9 +359,11 @@ Proof.
   destruct (prefix_independent _ _ p p' j k o Hp Hp') as (C1 & C2); try assumption.
   { intros i Hi. apply nth_error_app_pre. lia. }
   { exists t. split; [|exact Hsy]. rewrite nth_error_app1 by exact Hjl. exact Ht. }
-  rewrite app_assoc in HE, HE', Hp, Hp'. rewrite <- app_length in Hb2, Hb2'.
-  destruct (suffix_independent (pre ++ mid) (pre ++ mid') post p p' k2 k2' HE HE' Hp Hp' Hb2 Hb2') as (_ & _ & D1 & D2).
-  rewrite !app_length in D1, D2, Hb2, Hb2'.
+  assert (Hb2a : Boundary p k2 (length (pre ++ mid))) by (rewrite app_length; exact Hb2).
+  assert (Hb2a' : Boundary p' k2' (length (pre ++ mid'))) by (rewrite app_length; exact Hb2').
+  pose proof Hp as Hq. pose proof Hp' as Hq'. rewrite app_assoc in HE, HE', Hq, Hq'.
+  destruct (suffix_independent (pre ++ mid) (pre ++ mid') post p p' k2 k2' HE HE' Hq Hq' Hb2a Hb2a') as (_ & _ & D1 & D2).
+  rewrite (app_length pre mid), (app_length pre mid') in D1, D2.
   assert (E1 : forall l, shift_offs (length pre + length mid') l = shift_offs (length pre) (shift_offs (length mid') l))
     by (intros l; rewrite shift_shift; f_equal; lia).
   assert (E2 : forall l, shift_offs (length pre + length mid) l = shift_offs (length pre) (shift_offs (length mid) l))
